@@ -3,9 +3,9 @@ package main
 // rules_fmt2.go — FMT9..FMT11: what the reader does with the values it decodes.
 
 import (
-	"go/constant"
 	"fmt"
 	"go/ast"
+	"go/constant"
 	"go/token"
 	"go/types"
 	"sort"
